@@ -72,6 +72,17 @@ func runWT(sc *h.Scenario) *h.Rec {
 			return
 		}
 		defer sess.CloseWithError(0, "")
+		go func() { // datagrams come back as they are
+			for {
+				m, err := sess.ReceiveDatagram(r.Context())
+				if err != nil {
+					return
+				}
+				if err := sess.SendDatagram(m); err != nil {
+					return
+				}
+			}
+		}()
 		for {
 			rs, err := sess.AcceptUniStream(r.Context())
 			if err != nil {
@@ -117,6 +128,40 @@ func runWT(sc *h.Scenario) *h.Rec {
 			}
 			rec.Log("RealOp", "a", "write", "n", st.N, "ret", ret, "detail", tail(detail))
 			inFlight++
+		case "dwrite":
+			// a datagram message (split into segments by the transport); alternately through WriteUnreliable and AsUnreliable().Write
+			id := r.newMsg(2, st.N)
+			var werr func() error
+			if u, ok := t.AsUnreliable(); ok && id%2 == 0 {
+				werr = func() error { return u.Write(r.sent[id].b) }
+			} else {
+				werr = func() error { return t.WriteUnreliable(r.sent[id].b) }
+			}
+			ret, detail := safely(werr)
+			rec.Log("RealOp", "a", "dwrite", "n", st.N, "id", id, "ret", ret, "detail", tail(detail))
+			time.Sleep(3 * time.Millisecond) // do not overrun the datagram queues of the loopback session
+		case "ddrain":
+			// hand up whatever has arrived until nothing comes for 300 ms: every message is exactly one written message, none twice
+			got := []any{}
+			for {
+				type rr struct {
+					m   []byte
+					err error
+				}
+				c := make(chan rr, 1)
+				go func() { m, err := t.ReadUnreliable(); c <- rr{m, err} }()
+				var x rr
+				select {
+				case x = <-c:
+				case <-time.After(300 * time.Millisecond):
+					x.err = context.DeadlineExceeded
+				}
+				if x.err != nil {
+					break
+				}
+				got = append(got, []any{r.matchRead(x.m), len(x.m)})
+			}
+			rec.Log("RealOp", "a", "ddrain", "got", got)
 		case "read":
 			if inFlight == 0 {
 				rec.Log("Inconclusive", "why", "read scripted with nothing in flight")
